@@ -80,6 +80,35 @@ def handle (line : String) : String :=
       let (u, c) ← readBool c
       if !c.atEnd then none
       pure (toString (initMeshGamma rev a b u))
+    | "gvseq" =>
+      -- gvseq k p1 … pk (0 = no perturbation, 1 = user direction): direction each call computes with
+      let (k, c) ← c.nat?
+      let (v, c) ← c.nats? k
+      if !c.atEnd then none
+      let calls := v.toList.map fun x => if x = 0 then GammaDir.none else GammaDir.user
+      let sh : GammaDir → String := fun g => match g with | .none => "none" | .user => "user" | .segment => "segment"
+      pure (" ".intercalate ((gvSequence calls ⟨GammaDir.none⟩).map sh))
+    | "gammadir" =>
+      -- gammadir <path> <userDirGiven> <segThroughGamma>
+      let (ps, c) ← c.str?
+      let p ← path? ps
+      let (u, c) ← readBool c
+      let (sg, c) ← readBool c
+      if !c.atEnd then none
+      let sh : GammaDir → String := fun g => match g with | .none => "none" | .user => "user" | .segment => "segment"
+      pure (s!"freq={sh (freqGammaDir p u sg)} gv={sh (gvPerturbation p u)} sym={gvSymmetrized p u} offers_gv={offersGv p}")
+    | "written" =>
+      -- written <writer> e g d c
+      let (ws, c) ← c.str?
+      let w ← (match ws with
+        | "qpoints_yaml" => some Writer.qpointsYaml | "qpoints_hdf5" => some Writer.qpointsHdf5
+        | "mesh_yaml" => some Writer.meshYaml | "mesh_hdf5" => some Writer.meshHdf5
+        | "band_yaml" => some Writer.bandYaml | "band_hdf5" => some Writer.bandHdf5 | _ => none)
+      let (o, c) ← readOpts c
+      if !c.atEnd then none
+      let sh : Field → String := fun f => match f with
+        | .frequency => "frequency" | .eigenvector => "eigenvector" | .groupVelocity => "group_velocity" | .dynamicalMatrix => "dynamical_matrix"
+      pure (" ".intercalate ((written w o).map sh))
     | "banddirs" =>
       -- banddirs k (throughGamma npts)*k : per segment, per point the direction label (s<k> or none)
       let (k, c) ← c.nat?
@@ -89,13 +118,14 @@ def handle (line : String) : String :=
       let show1 : Option Nat → String := fun o => match o with | none => "none" | some n => s!"s{n}"
       pure (" ; ".intercalate ((bandDirs segs).map fun l => " ".intercalate (l.map show1)))
     | "conn" =>
-      -- conn n <n*n overlaps, row major> <prev band order, n entries>
+      -- conn <repaired 0/1> n <n*n overlaps, row major> <prev band order, n entries>
+      let (rp, c) ← readBool c
       let (n, c) ← c.nat?
       let (m, c) ← c.rats? (n * n)
       let (prev, c) ← c.nats? n
       if !c.atEnd then none
       let metric : List (List Rat) := (List.range n).map fun i => (List.range n).map fun j => m.getD (i * n + j) 0
-      match connOrder? metric with
+      match connOrderRev rp metric with
       | none => pure "unbound"
       | some co =>
         let bo := bandOrder co prev.toList
